@@ -17,6 +17,10 @@
                           trace accepted by Step  <=>  Decl(history),
                        i.e. the operational spec used for conformance is neither
                        stronger nor weaker than the declarative statement of C18.
+             "renum" : enumerate every sequence of <= maxlen read-only calls
+                       (Fields!ReadOps) on the original or on the clone, after a cloning;
+                       printed as <<"RCASE", <<"get.clone", ...>>>> and run by the harness
+                       on every clone subject (C19: equal copies stay equal, spec -> code).
      maxlen  bound on the number of calls
      fields  sequence of [name, kind ("pos" / "tag" / "newtag"), dt, classes]   *)
 EXTENDS Fields, Json, IOUtils, TLC
@@ -50,7 +54,8 @@ InitSt(i, k, conn) == Init0(k, conn, [n \in {FN(i)} |-> Field(Flds[i].dt, InitCl
 
 Ev(op, res, mark, chg) == [op |-> op, res |-> res, mark |-> mark, chg |-> chg]
 
-Init == \E i \in DOMAIN Flds, k \in 0..3, conn \in (IF Mode = "props" THEN BOOLEAN ELSE {FALSE}) :
+Init == \E i \in DOMAIN Flds, k \in (IF Mode = "renum" THEN {1} ELSE 0..3),
+             conn \in (IF Mode = "props" THEN BOOLEAN ELSE {FALSE}) :
           /\ fld = i /\ st = InitSt(i, k, conn) /\ hist = <<>> /\ alive = {st}
 
 NextEnum ==
@@ -80,8 +85,14 @@ NextEquiv ==
      /\ hist' = Append(hist, Ev(op, ob[1], ob[2], ob[3]))
      /\ UNCHANGED <<fld, st>>
 
+NextREnum ==
+  \E k \in ReadOps, t \in {"orig", "clone"} :
+     /\ hist' = Append(hist, Ev(Op(k, FN(fld), "-", t), "-", FALSE, FALSE))
+     /\ UNCHANGED <<fld, st, alive>>
+
 Next == /\ Len(hist) < MaxLen
         /\ CASE Mode = "enum" -> NextEnum [] Mode = "props" -> NextProps [] Mode = "equiv" -> NextEquiv
+             [] Mode = "renum" -> NextREnum
 
 Spec == Init /\ [][Next]_vars
 
@@ -90,14 +101,19 @@ Spec == Init /\ [][Next]_vars
 Code(e) == IF e.op.k = "set" THEN "set." \o e.op.c ELSE e.op.k
 Codes(h) == [j \in DOMAIN h |-> Code(h[j])]
 HasSet(h) == \E j \in DOMAIN h : h[j].op.k = "set"
-ProgView == <<fld, Lvl, Codes(hist)>>
-Emit == IF Mode = "enum" /\ HasSet(hist) THEN PrintT(<<"CASE", Lvl, FN(fld), Codes(hist)>>) ELSE TRUE
+RCodes(h) == [j \in DOMAIN h |-> h[j].op.k \o "." \o h[j].op.t]
+ProgView == <<fld, Lvl, IF Mode = "renum" THEN RCodes(hist) ELSE Codes(hist)>>
+Emit == IF Mode = "enum" /\ HasSet(hist) THEN PrintT(<<"CASE", Lvl, FN(fld), Codes(hist)>>)
+        ELSE IF Mode = "renum" /\ hist # <<>> THEN PrintT(<<"RCASE", RCodes(hist)>>)
+        ELSE TRUE
 
 -----------------------------------------------------------------------------
 (* the statements of C18 / C19 on every transition (mode "props") *)
 LastOut == [st |-> st', res |-> hist'[Len(hist')].res, mark |-> hist'[Len(hist')].mark,
             chg |-> hist'[Len(hist')].chg]
-Statements == [][Mode = "props" => AllStatements(st, hist'[Len(hist')].op, LastOut)]_vars
+Statements == [][Mode = "props" => /\ AllStatements(st, hist'[Len(hist')].op, LastOut)
+                                    \* C19: reading either copy does not make equal copies unequal
+                                    /\ PReadKeepsEqual(st, hist'[Len(hist')].op, LastOut)]_vars
 
 \* the catalogue offers exactly the value classes the datatype has
 CatalogueOK == \A i \in DOMAIN Flds :
